@@ -7,6 +7,7 @@ from ..ref import ws as refws
 from . import c04
 
 LEVEL = 'exploration'
+TECHNIQUE = 'offline checker over the tagged operation log (pong payloads, order and write-before-yield tags) with injected write faults'
 BUDGET_S = {'quick': 30, 'thorough': 200}
 REQUIRED = {'all': ['oracle.pongs_matched', 'oracle.pings_vs_ground_truth', 'oracle.auto_pong_off_runs', 'oracle.closing_runs', 'oracle.pong_write_fault_runs',
                     'oracle.order_vs_app_writes_checked']}
